@@ -101,6 +101,7 @@ def register(name, fn):
 
 def main(argv):
     repo, outdir, targets = argv[1], argv[2], argv[3:]
+    sys.modules.setdefault("gen", sys.modules[__name__])
     try:
         import gen_more  # noqa: F401  (registers further targets)
     except ImportError:
